@@ -224,6 +224,11 @@ func (otx olvmTx) Validate(ctx *action.Context, signedTx action.SignedTx) (bool,
 	}
 
 	//validate basic signature
+	// the signature is made over a legacy ethereum transaction: a type or an access list
+	// would take part in the execution without being covered by it
+	if tx.TxType != ethtypes.LegacyTxType || tx.AccessList != nil && len(*tx.AccessList) > 0 {
+		return false, ethtypes.ErrTxTypeNotSupported
+	}
 	err = tx.validateSigner(ctx, signedTx)
 	if err != nil {
 		return false, err
